@@ -149,6 +149,9 @@ func (w *world) consensusConfig(dir string) *cfg.ConsensusConfig {
 // seam returns no listener and the table seam builds the in-memory HTTP table
 // (no DHT, no UDP). The switch is never started.
 func conManager(key crypto.PrivKey) (*p2p.ConManager, error) {
+	if sharedConManager != nil {
+		return sharedConManager, nil
+	}
 	p2p.ListenerBindFunc = func(nodeType types.NodeType, fullListenAddrString string, externalAddrString string, logger log.Logger) (tcpListener net.Listener, extAddr *p2p.NetAddress, udpConn *net.UDPConn, isUpnpSuccess bool) {
 		return nil, nil, nil, false
 	}
@@ -165,8 +168,13 @@ func conManager(key crypto.PrivKey) (*p2p.ConManager, error) {
 	if cm == nil {
 		return nil, fmt.Errorf("no connection manager")
 	}
+	sharedConManager = cm
 	return cm, nil
 }
+
+// one per process: it is only the sink of LinkApplication.getAllCandidates'
+// SetCandidate call (a buffered channel nobody reads; "full" is logged and ignored)
+var sharedConManager *p2p.ConManager
 
 // open starts an incarnation over a copy of d. Panics of the code under test
 // are NOT recovered here (callers wrap with kernel.Try where a verdict is due).
